@@ -10,7 +10,7 @@ find $D -name __pycache__ -prune -exec rm -rf {} + 2>/dev/null
 PROPS="$@"
 [ -z "$PROPS" ] && PROPS=$(/venv/bin/python -c "import json;print(' '.join(c['property_id'] for c in json.load(open('/verif/MANIFEST.json'))['checks']))")
 export D
-run() { p=$1; out=$(cd /verif && NGOSA_REPO=$D NGOSA_EVIDENCE=$D/evidence/$p ./check $p 2>&1); rc=$?; if [ $rc -ne 0 ]; then echo "== $p rc=$rc"; echo "$out" | grep -v "^\[\|^KNOWN" | sed "s#$D#<scratch>#g" | head -${PATCHCHECK_LINES:-6}; fi; }
+run() { p=$1; out=$(cd ${VERIF_HOME:-/verif} && NGOSA_REPO=$D NGOSA_EVIDENCE=$D/evidence/$p ./check $p 2>&1); rc=$?; if [ $rc -ne 0 ]; then echo "== $p rc=$rc"; echo "$out" | grep -v "^\[\|^KNOWN" | sed "s#$D#<scratch>#g" | head -${PATCHCHECK_LINES:-6}; fi; }
 export -f run
 printf "%s\n" $PROPS | xargs -P 10 -I{} bash -c 'run {}'
 rm -rf $D
